@@ -13,7 +13,7 @@ import itertools
 import numpy as np
 from hypothesis import strategies as st
 
-from vlib.runner import Sub, Violation, ok
+from vlib.runner import Sub, Violation, Reject, ok
 from vlib.util import fl, rng_of, crandom, reldiff, maxabs
 from vlib import wbsys, spinsoc
 
@@ -275,7 +275,15 @@ def check_kp(case):
     else:
         lattice = wbsys.lattice_matrix(case["box"]["lat"])
         recip = 2 * np.pi * np.linalg.inv(lattice).T
-        s = SystemKP(Ham=poly, kmax=None, real_lattice=lattice.copy(), k_vector_cartesian=case["cart"], silent=True)
+        try:
+            s = SystemKP(Ham=poly, kmax=None, real_lattice=lattice.copy(), k_vector_cartesian=case["cart"], silent=True)
+        except TypeError as exc:
+            # for ~10% of the low-symmetry lattices find_shells() finds no finite-difference shells and SystemKP cannot
+            # be constructed at all (TypeError: 'NoneType' object is not iterable); that is the subject of C22, not of C33
+            import traceback
+            if traceback.extract_tb(exc.__traceback__)[-1].name != "find_shells":
+                raise
+            raise Reject("SystemKP not constructible: find_shells() fails for this lattice (see C22)")
 
     def wrap(k):
         return (np.asarray(k) + 0.5) % 1 - 0.5
